@@ -278,7 +278,7 @@ pub fn run(ctx: &mut Ctx) {
     let mut rng = ctx.rng(0xC16);
     let names = common_safe_names();
     let g = Gen { names: &names, max_depth: 6, max_arity: 4, placeholders: true, set_bias: false };
-    let n = ctx.share(1_500_000, 24_000_000);
+    let n = ctx.share(4_000_000, 40_000_000);
     for i in 0..n {
         if ctx.out_of_time() {
             ctx.report.inconclusive.push(format!("random workload cut at {} of {}", i, n));
